@@ -42,7 +42,9 @@ type c16Rig struct {
 	*rhpRig
 	hook     simrhp.Hook
 	relation string
-	contract *rhp4.ContractRevision // a confirmed contract for renew / refresh
+	contract *rhp4.ContractRevision // a contract for renew / refresh
+	// leaveUnconfirmed: a successful formation is not followed by a block
+	leaveUnconfirmed bool
 }
 
 var errInjectedDial = errors.New("verif: injected dial failure")
@@ -196,6 +198,10 @@ func (c *c16Rig) attempt(op, kind string) {
 	}
 	ctx := context.Background()
 	cs := c.rs.cm.TipState()
+	contractOnChain := true
+	if op != "form" {
+		_, contractOnChain = c.tree.ByID[c.s.cm.Tip().ID].L.V2FC[c.contract.ID]
+	}
 	var err error
 	var got rhp4.ContractRevision
 	var set rhp4.TransactionSet
@@ -272,6 +278,14 @@ func (c *c16Rig) attempt(op, kind string) {
 		if _, perr := fresh.cm.AddV2PoolTransactions(set.Basis, set.Transactions); perr != nil {
 			e.Violationf("C16.set-confirmable", op+":fresh-pool", "%s returned a transaction set a fresh pool rejects: %v", op, perr)
 		}
+		if op == "form" && c.leaveUnconfirmed {
+			// nobody mines yet: the next renewal / refresh meets a contract the
+			// host has recorded but whose formation is still in the pool
+			c.leaveUnconfirmed = false
+			c.contract = &got
+			e.Fault("contract-left-unconfirmed")
+			return
+		}
 		c.mine(1)
 		if c.rs != c.s {
 			c.relation = "same-tip"
@@ -325,6 +339,17 @@ func (c *c16Rig) attempt(op, kind string) {
 		// leaving no trace (checked above).
 		e.Probe("refused_by_host_policy")
 		c.contract = nil
+		return
+	}
+	if op != "form" && !contractOnChain {
+		// the host cannot renew what is not on chain yet: a proper refusal,
+		// leaving no trace (checked above). The contract gets confirmed now.
+		e.Probe("refused_contract_unconfirmed")
+		c.mine(1)
+		if c.rs != c.s && c.rs.cm.Tip() == c.s.cm.Tip() {
+			c.relation = "same-tip"
+		}
+		c.refreshPrices()
 		return
 	}
 	if kind == "none" && !strings.HasPrefix(c.relation, "unknown-fork") && !strings.HasPrefix(c.relation, "stale-fork") {
@@ -426,7 +451,12 @@ func runC16(e *sim.Env) {
 	attempts := e.Range(3, 8)
 	for i := 0; i < attempts; i++ {
 		op := "form"
-		if c.contract != nil && e.Chance(2, 3) {
+		pending := false
+		if c.contract != nil {
+			_, onChain := c.tree.ByID[c.s.cm.Tip().ID].L.V2FC[c.contract.ID]
+			pending = !onChain
+		}
+		if c.contract != nil && (e.Chance(2, 3) || pending) {
 			op = []string{"renew", "refresh-full", "refresh-partial"}[e.Intn(3)]
 			if c.rs != c.s && c.relation == "same-tip" && e.Chance(1, 3) {
 				// the renter wanders off onto a fork the host never sees: the
@@ -442,8 +472,24 @@ func runC16(e *sim.Env) {
 				e.Fault("renter-leaves-for-unknown-fork")
 			}
 		}
+		if op != "form" && c.rs != c.s && c.relation == "same-tip" && e.Chance(1, 3) {
+			// the host's node moves on and the renter's has not heard yet: the
+			// renewal of a confirmed contract starts from a basis behind the host's
+			x := c.tree.ByID[c.s.cm.Tip().ID]
+			for j, k := 0, e.Range(1, 5); j < k; j++ {
+				x = c.tree.Extend(e, x, gen.BlockOpts{Now: c.now, Miner: types.VoidAddress})
+				c.s.cm.AddBlocks([]types.Block{x.Block})
+			}
+			c.syncAll()
+			c.relation = "renter-behind"
+			e.Fault("renter-falls-behind")
+		}
+		if op == "form" && i < attempts-1 && e.Chance(1, 5) {
+			c.leaveUnconfirmed = true
+		}
 		kind := c16Faults[e.Pick(3, 1, 1, 1, 1, 1, 1, 1, 1, 1, 1, 1, 1, 1)]
 		c.attempt(op, kind)
+		c.leaveUnconfirmed = false
 		if op != "form" && c.contract != nil && e.Chance(1, 2) {
 			// renewed contracts cannot be renewed again from the old revision
 			c.contract = nil
@@ -460,7 +506,7 @@ var _ = sim.NewEnv
 func init() {
 	register(&Prop{
 		ID: "C16", Run: runC16, Quick: 1500, Thorough: 40000, Level: "fault_enumeration",
-		Rule:        "one run = a drawn basis relation between renter and host node (shared node; two nodes at the same tip; renter behind by 1-10 blocks; renter on a fork the host has seen and left; renter on a fork the host never saw - from the start, or only after a contract was formed and confirmed, so that renewals and refreshes meet it too; optionally the renter's funds are unconfirmed outputs with pooled parents) and 3-8 form / renew / refresh (full, partial) attempts through the real client and server, each disturbed at one point of the exchange {none, dial fails, request dropped, host inputs dropped, stream cut after host inputs, renter signatures dropped / truncated mid-message, renter contract signature corrupted, renter input signature corrupted, final response dropped after the host recorded the contract, host inputs falsified, final set falsified, the host's signature on the new contract or on the renewal corrupted in its final transaction}; oracles: success => renter and host hold the same doubly signed contract, the returned set is accepted by a fresh pool at the host's tip and, mined, creates exactly that contract with the agreed funding; failure => either the host completed the exchange (contract recorded AND its transaction pooled) or nobody keeps a trace: Balance and SpendableOutputs of BOTH wallets are identical to before; a final undisturbed formation must still succeed; distinct = (op, relation, fault, outcome) traces",
+		Rule:        "one run = a drawn basis relation between renter and host node (shared node; two nodes at the same tip; renter behind by 1-10 blocks; renter on a fork the host has seen and left; renter on a fork the host never saw - from the start, or only after a contract was formed and confirmed, so that renewals and refreshes meet it too; the host's node moving ahead of the renter's only after a contract was confirmed; a formed contract left unconfirmed (nobody mines) before the next renewal / refresh; optionally the renter's funds are unconfirmed outputs with pooled parents) and 3-8 form / renew / refresh (full, partial) attempts through the real client and server, each disturbed at one point of the exchange {none, dial fails, request dropped, host inputs dropped, stream cut after host inputs, renter signatures dropped / truncated mid-message, renter contract signature corrupted, renter input signature corrupted, final response dropped after the host recorded the contract, host inputs falsified, final set falsified, the host's signature on the new contract or on the renewal corrupted in its final transaction}; oracles: success => renter and host hold the same doubly signed contract, the returned set is accepted by a fresh pool at the host's tip and, mined, creates exactly that contract with the agreed funding; failure => either the host completed the exchange (contract recorded AND its transaction pooled) or nobody keeps a trace: Balance and SpendableOutputs of BOTH wallets are identical to before; a final undisturbed formation must still succeed; distinct = (op, relation, fault, outcome) traces",
 		Real:        []string{"rhp4.Server (form/renew/refresh handlers)", "rhp4 RPCFormContract / RPCRenewContract / RPCRefreshContract* client", "wallet.SingleAddressWallet x2 (reservations)", "chain.Manager x1-2", "testutil.EphemeralContractor behind a recording wrapper"},
 		Stub:        []string{"transport: simrhp in-memory streams with typed relay and dial failures", "disk: simdisk.DB"},
 		Assumptions: []string{"renew / refresh attempts are only issued when renter and host share a node (the contract element must be known to both)"},
